@@ -159,10 +159,17 @@ class Vec(object):
     def boom(self):
         raise LookupError("boom")
 
+    def exhaust(self):
+        raise Exhausted()                        # a data-less subclass of StopIteration: `except Exhausted:` must still catch it
+
     def pair(self):
         return Point(len(self.xs), "p")          # an instance of a tuple SUBCLASS: not a plain value, travels by reference
 
     exposed_scale = scale
+
+
+class Exhausted(StopIteration):
+    pass
 
 
 Point = collections.namedtuple("Point", ["first", "n"])
@@ -297,7 +304,7 @@ METHODS = {
     "deque": [("append", 1), ("appendleft", 1), ("pop", 0), ("popleft", 0), ("rotate", 1), ("clear", 0), ("count", 1)],
     "bytesio": [("read", 0), ("read", 1), ("write", 1), ("seek", 1), ("tell", 0), ("getvalue", 0), ("close", 0), ("readline", 0),
                 ("truncate", 1)],
-    "vec": [("scale", 0), ("scale", 0), ("scale", 1), ("scale", 2), ("boom", 0), ("missing_method", 0), ("pair", 0)], "node": [("missing_method", 0)],
+    "vec": [("scale", 0), ("scale", 0), ("scale", 1), ("scale", 2), ("boom", 0), ("missing_method", 0), ("pair", 0), ("exhaust", 0)], "node": [("missing_method", 0)],
     "ntuple": [("_replace", 0), ("_asdict", 0), ("count", 1), ("index", 1), ("missing_method", 0)],
     "iter": [], "gen": [("send", 1), ("close", 0)], "str": [("upper", 0), ("split", 0), ("find", 1)],
 }
@@ -411,7 +418,8 @@ def apply_step(step, objs, val, world_new):
 
 CONFIGS = {
     "classic": dict(allow_all_attrs=True, allow_setattr=True, allow_delattr=True, allow_getattr=True, allow_pickle=True,
-                    allow_exposed_attrs=False),       # what SlaveService.on_connect sets
+                    allow_exposed_attrs=False, import_custom_exceptions=True, instantiate_custom_exceptions=True,
+                    instantiate_oldstyle_exceptions=True),       # what SlaveService.on_connect sets
     "public": dict(allow_public_attrs=True, allow_setattr=True, allow_delattr=True),
     "default": {},
 }
@@ -436,6 +444,8 @@ def check(case, rec):
     steps = [s for s in steps if not (s[0] == "binop" and s[4] and s[3][0] == "v" and s[3][1][0] in ("bytes", "bytesrep"))]
     if cfg != "classic":     # an exposed_ twin stands in for a missing plain attribute by policy (C06): keep the plain one alive
         steps = [s for s in steps if not (s[0] == "delattr" and s[2] == "reading")]
+    if cfg != "classic":     # only classic mode rebuilds the peer's own exception classes (elsewhere a stand-in class arrives: C09)
+        steps = [s for s in steps if not (s[0] == "method" and s[2] == "exhaust")]
     if cfg == "public":      # that mode permits names that do not start with an underscore
         steps = [s for s in steps if not (s[0] in ("getattr", "setattr", "delattr", "method") and str(s[2]).startswith("_"))]
     twin_objs = make_world()
@@ -450,7 +460,7 @@ def check(case, rec):
         def exposed_world(self):
             return tuple(reals)          # a tuple of references
 
-    with Pair(rpyc.VoidService, Holder(), {"sync_request_timeout": 60}, dict(CONFIGS[cfg])) as p:
+    with Pair(rpyc.VoidService, Holder(), dict(CONFIGS[cfg] if cfg == "classic" else {}, sync_request_timeout=60), dict(CONFIGS[cfg])) as p:
         def driver():
             nonlocal errors
             proxies = list(p.a.root.exposed_world() if cfg == "classic" else p.a.root.world())
@@ -613,7 +623,9 @@ def steps():
     plain = st.lists(st.one_of(simple, simple, meth), min_size=1, max_size=25)
     #  - comparison of an object whose __eq__/__ne__ is neither reflexive nor boolean with ITSELF (world slot 15)
     weird = st.sampled_from([[["cmp_self", 15, "eq"]], [["cmp_self", 15, "ne"]], [["cmp", 15, "eq", ["h", 15]]], [["cmp", 15, "ne", ["h", 15]]]])
-    frag = st.one_of(twice, reflected, weird)
+    #  - results and exceptions whose class merely DERIVES from a plain one (tuple subclass instance, data-less StopIteration subclass)
+    derived = st.tuples(vec, st.sampled_from(["exhaust", "pair"])).map(lambda t: [["method", t[0], t[1], [], []]])
+    frag = st.one_of(twice, reflected, weird, derived)
     return st.one_of(plain, plain, st.tuples(st.lists(st.one_of(simple, meth), max_size=6), frag, st.lists(st.one_of(simple, meth), max_size=6)).map(
         lambda t: t[0] + t[1] + t[2]))
 
